@@ -167,6 +167,17 @@ func TestVerifC22(t *testing.T) {
 		{"app/s1/F+1/f", "app/s2/F+1/f", "app/s2/F+160/f", "mmap", "app/s2/F+1/st", "staleevict", "unclean"},
 		{"app/s1/F+1/f", "app/s2/F+1/f", "rotate", "rotate", "rotate", "app/s1/F+160/f", "cmphead", "reopen"},
 		{"app/s1/F+1/f", "app/s2/F+1/f", "tick", "app/s3/F+1/f", "app/s1/F+160/f", "cmphead", "unclean"},
+		// the highest reference belongs to an evicted series whose series record sits in the WAL
+		// segments that the checkpoint of the head compaction rewrites (and drops), while its full-range
+		// tombstone sits in a later segment: after the restart only that tombstone still mentions the reference
+		{"app/s2/F+1/f", "app/s1/F+1/f", "app/s1/F+1/st", "rotate", "rotate", "rotate", "staleevict", "app/s2/F+160/f", "cmphead", "reopen"},
+	}
+	// the checkpoint/tombstone start (last one) also WITHOUT fast startup: with it the state file written
+	// by the clean shutdown restores the last reference and hides what the WAL replay derives
+	if r.Quick() && !r.Expired() {
+		name := "base@c22+tombstone-start"
+		res := r.BFSFrom(name, func() vx.Sys { return c22New(r, cfgs["base"], name) }, starts[len(starts)-1:], 1)
+		t.Logf("C22 %s: states=%d transitions=%d", name, res.States, res.Transitions)
 	}
 	for _, cn := range vx.Pick(r, []string{"faststart+snap", "faststart"}, []string{"faststart+snap", "faststart", "base", "ooo+faststart"}) {
 		if r.Expired() {
